@@ -21,7 +21,9 @@ using namespace simk;
 
 extern "C" __attribute__((used)) const char *__asan_default_options() { return "exitcode=77:detect_leaks=0:abort_on_error=0:detect_stack_use_after_return=0:quarantine_size_mb=4:thread_local_quarantine_size_kb=64:malloc_context_size=8"; }
 extern "C" __attribute__((used)) const char *__ubsan_default_options() { return "print_stacktrace=1:halt_on_error=1:exitcode=77"; }
-extern "C" __attribute__((used)) const char *__tsan_default_options() { return "exitcode=66:halt_on_error=1:report_signal_unsafe=0"; }
+extern "C" __attribute__((used)) const char *__tsan_default_options() { return "exitcode=66:halt_on_error=1:report_signal_unsafe=0:ignore_interceptors_accesses=1:report_thread_leaks=0"; }
+
+std::string tls_check(uint64_t seed);
 
 static double now_s() { return std::chrono::duration<double>(std::chrono::steady_clock::now().time_since_epoch()).count(); }
 
@@ -401,6 +403,13 @@ int main(int argc, char **argv) {
   if (thorough && getenv("VERIF_THOROUGH_SECS")) secs = atof(getenv("VERIF_THOROUGH_SECS"));
   double t0 = now_s();
 
+  std::string extra_evidence;
+  for (int i = 1; i + 1 < argc; i++) if (std::string(argv[i]) == "--extra-evidence") extra_evidence = argv[i + 1];
+  uint64_t tls_runs = 0;
+  std::string tls_bad;
+  if (prop == "C20" && lane != "tsan") {
+    for (uint64_t i = 0; i < (thorough ? 5000u : 400u) && tls_bad.empty(); i++) { tls_bad = tls_check(seed * 7919 + i); tls_runs++; }
+  }
   Shared *sh = (Shared *) mmap(nullptr, sizeof(Shared), PROT_READ | PROT_WRITE, MAP_SHARED | MAP_ANONYMOUS, -1, 0);
   memset((void *) sh, 0, sizeof *sh);
   std::string tmpdir = std::string("build/tmp.") + std::to_string(getpid());
@@ -555,6 +564,10 @@ int main(int argc, char **argv) {
     new_violations++;
   }
 
+  if (!tls_bad.empty()) {
+    printf("VIOLATION property=C20 replay=%s\n  signature: C20/error-string-shared\n  detail: %s\n", "(none: two real threads released by a seeded baton; re-run the check)", tls_bad.c_str());
+    new_violations++;
+  }
   // ---- evidence
   double wall = now_s() - t0;
   Json ev = Json::obj();
@@ -596,6 +609,8 @@ int main(int argc, char **argv) {
                             .set("stub", "libc system-call layer (simk), child programs (scripts), clock, scheduler; allocator = real malloc behind a ledger shim")
                             .set("lane", lane));
   cov.set("violations_detail", vio);
+  if (tls_runs) cov.set("error_string_tls_scenarios", (unsigned long long) tls_runs);
+  if (!extra_evidence.empty()) { Json xj; if (Json::parse(read_file(extra_evidence), xj)) cov.set("tsan_lane", xj.at("coverage")); }
   ev.set("coverage", cov);
   ev.set("assumptions", Json::arr()
                             .push("simk's model of Linux pipe/poll/fork/exec/wait/signal semantics (calibrated by the conformance self-test)")
